@@ -538,7 +538,7 @@ func (c Config) MarshalJSON() ([]byte, error) {
 			_ = c[i+1]
 			b.WriteByte('[')
 			for x, v, e := int(c[i+1]), i+2, i+2; x > 0 && v < n; x-- {
-				if v += int(c[v]) + 1; e+1 > v || e+1 == v || v < e || v > n || e > n || x > n || e < i || v < i || x < i {
+				if v += int(c[v]) + 1; e+1 > v || e+1 == v || v < e || v > n || e > n || x > n || e < i || v < i {
 					return nil, xerr.Wrap("dns", ErrInvalidSetting)
 				}
 				if x != int(c[i+1]) {
